@@ -152,6 +152,9 @@ def check(tree, rep, tier='quick', seed=0):
                             yy = a.name.split('.')[2][2:]
                             rep.ob('R10.8', f'{rel}@{a.name}', yy == str(y), f'{rel} (tax year {y}) imports {a.name}', f'{rel}:{n.lineno}')
             _names(rel, mod, ns, cat, rep)
+    # the claim is exhaustive over all syntactic paths: a construct the interpreter could not follow is not a pass
+    if rep.undecided:
+        rep.error(f'{len(rep.undecided)} construct(s) of line definitions could not be followed, so "every reference resolves" is not decided for them: {rep.undecided[0][:200]}')
     rep.floor('definitions evaluated (lines + pdf value functions + needs_filing)', n_defs, 2300)
     rep.floor('paths explored', n_paths, 4000)
     rep.floor('distinct (definition, reference) reads resolved', n_reads, 3300)
